@@ -127,6 +127,21 @@ def rule(ctx, rule_id):
         if not ok:
             cls = "%s/%s" % (want[0], "peculiar" if want[0] == "Identifier" and t[0] in "+-." else ("leading-dot" if t.lstrip("+-").startswith(".") else "ordinary"))
             bad.setdefault(cls, []).append((t, got))
+    # |quoted| identifiers: whatever stands between the bars is the name of a symbol — also when it is spelled like a token of another
+    # class (the dot of a dotted pair, a number, a boolean, a parenthesis, a quote, a comment starter) or is empty
+    nq = 0
+    for content in (".", "...", "..", "1", "-5", "1/2", "1.5", "1e3", "#t", "#f", "#\\a", "(", ")", "'", ";", "a b", "", "\"", "a;b", " ", "#(", "+", "-",
+                    "quote", "a\tb", "a(b", ". ", " ."):
+        toks = lexrun.lex(fb, "|" + content + "| ")
+        if toks and toks[-1][0] in ("stuck", "panic"):
+            und += 1
+            continue
+        nq += 1
+        got = [(k, p) for k, p, *_ in toks]
+        if not (len(got) == 1 and got[0] == ("Identifier", content)):
+            bad.setdefault("Identifier/bar-quoted", []).append(("|" + content + "|", got))
+    n += nq
+    ctx.inst(rule_id, "token-classes/bar-quoted", {"tokens": nq})
     ctx.inst(rule_id, "token-classes", {"tokens": n, "undecided": und, "disagreements": sum(len(v) for v in bad.values()),
                                         "rejected_outside_supported_grammar": rejected})
     ctx.assume("the lexer's supported grammar excludes two R7RS token forms, which it rejects with a syntax error: decimals without an "
@@ -138,5 +153,5 @@ def rule(ctx, rule_id):
     for cls, items in sorted(bad.items()):
         t, got = items[0]
         ctx.report(rule_id, cls, "%d token(s) of the class %s are not read as R7RS 7.1.1 assigns, e.g. `%s` is %s but is read as %s (all: %s)" % (
-            len(items), cls, t, classify(t), got, " ".join(x for x, _ in items[:12])), where_of(nx))
+            len(items), cls, t, classify(t) if not t.startswith("|") else ("Identifier", t[1:-1]), got, " ".join(x for x, _ in items[:12])), where_of(nx))
     return n
